@@ -162,7 +162,7 @@ class Check:
         return sh(cmd, cwd=REPO, env=e, timeout=timeout + 60, check=False)
 
     # ----------------------------------------------------------------- TLC side
-    def tlc(self, module, cfg, files=None, workers=1, args=(), timeout=900, heap_gb=4, name=None, deque=False):
+    def tlc(self, module, cfg, files=None, workers=1, args=(), timeout=900, heap_gb=3, name=None, deque=False):
         """Run TLC on spec/<...>/<module>.tla in a scratch copy of spec/. `cfg` is a path relative to spec/.
         `files` maps names in the scratch dir to source paths (e.g. {"trace.ndjson": path})."""
         self._n += 1
@@ -181,7 +181,8 @@ class Check:
         if not os.path.exists(os.path.join(d, "Prim.class")):
             sh(["javac", "-cp", TLAJAR, "-d", d, os.path.join(SPEC, "Prim.java")], timeout=120)
         md = os.path.join(d, "md")
-        jopts = ["-Xss512m", "-Xmx%dg" % heap_gb, "-XX:+UseParallelGC"]
+        # many TLC processes run side by side (one per shard): keep each JVM's GC thread pool small
+        jopts = ["-Xss512m", "-Xmx%dg" % heap_gb, "-XX:+UseParallelGC", "-XX:ParallelGCThreads=%d" % (2 if workers <= 2 else 4)]
         if deque:
             jopts.append("-Dtlc2.tool.queue.IStateQueue=StateDeque")
         cmd = ["timeout", "-k", "10", str(timeout), "java"] + jopts + ["-cp", "%s:%s:%s" % (TLAJAR, CMJAR, d), "tlc2.TLC",
@@ -211,7 +212,7 @@ class Check:
         return res
 
     # ------------------------------------------------- trace validation (C->S)
-    def validate_segments(self, module, cfg, trace_path, timeout=900, name=None, heap_gb=4, extra_files=None, deque=False):
+    def validate_segments(self, module, cfg, trace_path, timeout=900, name=None, heap_gb=2, extra_files=None, deque=False):
         """Run a *_Trace spec over trace_path. Returns (res, rejected) where rejected is a list of
         dicts {seg, accepted, length, line (1-based index of first rejected line), event}."""
         lines = open(trace_path).read().splitlines()
@@ -249,7 +250,7 @@ class Check:
         self.evaluations += len(evs)
         return res, rejected
 
-    def validate_events(self, module, cfg, trace_path, timeout=900, name=None, heap_gb=4, workers=1, extra_files=None):
+    def validate_events(self, module, cfg, trace_path, timeout=900, name=None, heap_gb=2, workers=1, extra_files=None):
         """Pure-judgement traces: every line is judged on its own (Init: l \\in 1..N; one step prints
         <<"EV", l, "ok"|"bad">>). Returns (res, rejected) with rejected = [{line, event}]."""
         lines = open(trace_path).read().splitlines()
